@@ -505,7 +505,7 @@ def edited_arguments_followed(chk):
     def build(st):
         dm = m.DragModel(0.3, m.TableG7, U.Grain(168), U.Inch(0.308), U.Inch(1.2))
         return m.Shot(m.Weapon(U.Inch(st["sight"]), U.Inch(st["twist"])), m.Ammo(dm, U.FPS(st["mv"])), U.Degree(st["look"]), U.Mil(st["rel"]),
-                      U.Degree(st["cant"]), atmo=m.Atmo(U.Foot(st["alt"]), U.InHg(29.5), U.Fahrenheit(50), 20),
+                      U.Degree(st["cant"]), atmo=m.Atmo(U.Foot(st["alt"]), U.InHg(29.5), U.Fahrenheit(50), st.get("hum", 20)),
                       winds=[m.Wind(U.MPH(st["w"]), U.Degree(st["wd"]), U.Yard(300))])
     fire = lambda c, sh: tuple(scen.row_fp(r) for r in c.fire(sh, U.Foot(900), U.Foot(300), extra_data=True).trajectory)
     st = {"sight": 2.0, "twist": 10.0, "mv": 2700.0, "look": 0.0, "rel": 0.5, "cant": 0.0, "alt": 500.0, "w": 5.0, "wd": 90.0}
@@ -530,6 +530,22 @@ def edited_arguments_followed(chk):
         chk.stratum("shot_fields_edited_in_place_between_fires")
         if got[0] != "ok" or got[1] != want:
             chk.violation("C10.EditedArgumentNotFollowed", {"source": "edited-arguments", "field": name},
+                          {"state": dict(st), "outcome": got[0] if got[0] != "ok" else "rows differ from a freshly built equal shot"})
+    # the atmosphere's humidity set through its public setter between two SHORT fires of the same shot (few integration steps:
+    # whatever was remembered per altitude or per step during the first is still at hand during the second)
+    fire_s = lambda c, sh: tuple(scen.row_fp(r) for r in c.fire(sh, U.Foot(150), U.Foot(50)).trajectory)
+    for hum in (80, 0.35, 0):
+        fire_s(calc, shot)
+        shot.atmo.humidity = hum
+        st["hum"] = hum
+        got = impl.outcome(fire_s, calc, shot)
+        fr = build(st)
+        fr.weapon.zero_elevation = U.Radian(st_zero)
+        want = fire_s(m.Calculator(_config={"max_calc_step_size_feet": 2.0}), fr)
+        chk.count(1, ("edited-argument", "humidity", hum))
+        chk.stratum("atmosphere_humidity_set_between_short_fires")
+        if got[0] != "ok" or got[1] != want:
+            chk.violation("C10.EditedArgumentNotFollowed", {"source": "edited-arguments", "field": "atmo.humidity"},
                           {"state": dict(st), "outcome": got[0] if got[0] != "ok" else "rows differ from a freshly built equal shot"})
     core.reset_world()
 
@@ -674,7 +690,7 @@ def run(chk: core.Check, replay=None) -> None:
     chk.sample({"history": behs[0]})
     threads_part(chk, thorough, rng)
     chk.require_strata(["op_Fire", "op_FireRaises", "op_Zero", "op_ZeroRaises", "op_Danger", "op_Build", "op_EditTable", "op_FireBadTable",
-                        "default_objects_edited", "shot_fields_edited_in_place_between_fires", "earlier_results_rechecked", "table_edited_in_place", "edit_kind_table", "edit_kind_powder", "edit_kind_dims", "edit_between_computations_on_one_calculator", "unservable_zero_request_then_computation_on_one_calculator", "quantities_redisplayed_and_preferences_switched", "zero_written", "schedule", "schedule_equal_configurations", "schedule_different_configurations",
+                        "default_objects_edited", "shot_fields_edited_in_place_between_fires", "atmosphere_humidity_set_between_short_fires", "earlier_results_rechecked", "table_edited_in_place", "edit_kind_table", "edit_kind_powder", "edit_kind_dims", "edit_between_computations_on_one_calculator", "unservable_zero_request_then_computation_on_one_calculator", "quantities_redisplayed_and_preferences_switched", "zero_written", "schedule", "schedule_equal_configurations", "schedule_different_configurations",
                         "free_running"])
     chk.exhaustive = False
     chk.rule.append("TLC-simulated session histories of 6 operations over 3 shots (shared weapon / shared ammunition, with and without "
